@@ -63,6 +63,10 @@ pub struct Variant {
     /// makes the file several KiB long and puts multi-byte characters across every block boundary
     #[serde(default)]
     pub header_bytes: usize,
+    /// with `degrees`: entries whose bit is set are written as plain radians all the same (an
+    /// array may mix the two spellings)
+    #[serde(default)]
+    pub plain_mask: u8,
 }
 
 #[derive(Clone, Debug, Serialize, Deserialize, PartialEq)]
@@ -179,8 +183,9 @@ fn model_yaml(p: &ParamSpec, v: &Variant) -> String {
     if !v.omit_offsets {
         let items: Vec<String> = p.offsets[..n]
             .iter()
-            .map(|o| {
-                if v.degrees && *o != 0.0 {
+            .enumerate()
+            .map(|(k_, o)| {
+                if v.degrees && *o != 0.0 && (v.plain_mask >> (k_ % 8)) & 1 == 0 {
                     format!("deg({})", fmt_num(o.to_degrees(), false))
                 } else {
                     fmt_num(*o, v.integers)
@@ -225,7 +230,7 @@ fn model_expectation(p: &ParamSpec, v: &Variant) -> ParamSpec {
         for i in 0..6 {
             if v.five && i == 5 {
                 e.offsets[i] = 0.0;
-            } else if v.degrees && p.offsets[i] != 0.0 {
+            } else if v.degrees && p.offsets[i] != 0.0 && (v.plain_mask >> (i % 8)) & 1 == 0 {
                 // deg(x) with x printed exactly: the reader computes x.to_radians()
                 let x: f64 = fmt_num(p.offsets[i].to_degrees(), false).parse().unwrap();
                 e.offsets[i] = x.to_radians();
@@ -686,6 +691,7 @@ fn gen_variant(w: &mut Rng) -> Variant {
         crlf: w.chance(0.15),
         block: w.chance(0.3),
         header_bytes: if w.chance(0.25) { w.range_usize(3900, 9000) } else { 0 },
+        plain_mask: if w.chance(0.4) { w.below(64) as u8 } else { 0 },
     }
 }
 
